@@ -590,6 +590,33 @@ def r12_2_function_lookup(ctx: Ctx, rule: str = "R12.2") -> None:
                         problem = problem or "the arguments are reordered"
                     if "getattr(operator" in txt:
                         problem = problem or "the fallback goes back to the operator module"
+                # every argument goes through the engine's own converter, unconditionally
+                comps = [
+                    c
+                    for e in sl.exprs
+                    for c in ast.walk(e)
+                    if isinstance(c, (ast.ListComp, ast.GeneratorExp)) and len(c.generators) == 1 and src(c.generators[0].iter) == args_v
+                ]
+                conv_ok = False
+                for c in comps:
+                    g = c.generators[0]
+                    e_ = c.elt
+                    if (
+                        not g.ifs
+                        and isinstance(g.target, ast.Name)
+                        and isinstance(e_, ast.Call)
+                        and src(e_.func) == "self.convert_column_expression"
+                        and e_.args
+                        and isinstance(e_.args[0], ast.Name)
+                        and e_.args[0].id == g.target.id
+                    ):
+                        conv_ok = True
+                    else:
+                        problem = problem or f"`{src(c)[:90]}` does not hand every argument to self.convert_column_expression: an argument that reaches the function unconverted (a raw Python value, a node) means something else there than in the other engine"
+                if not conv_ok and not problem:
+                    mp = [c for e in sl.exprs for c in ast.walk(e) if isinstance(c, ast.Call) and isinstance(c.func, ast.Name) and c.func.id == "map" and len(c.args) == 2 and src(c.args[0]) == "self.convert_column_expression" and src(c.args[1]) == args_v]
+                    if not mp:
+                        problem = f"no conversion of every element of `{args_v}` with self.convert_column_expression feeds the call"
                 if problem:
                     run.fail(rule, inst, problem, fi=f, node=p.node, details=describe(p))
                 else:
